@@ -232,7 +232,7 @@ UNIT_TIMEOUT['api'] = 600
 
 PROPS['C15'] = {
     'units': ['api', 'eval', 'ops', 'front', 'lex', 'tree', 'mark', 'canon', 'tool'],
-    'functions': {'canon': [], 'mark': [], 'tool': ['get_extended_symbolic_graph'], 'api': ['sanitize_colored_vertices', '_model_check_multiple_trees', 'model_check_multiple_trees', '_model_check_tree', 'model_check_tree',
+    'functions': {'canon': [], 'mark': [], 'tool': ['get_extended_symbolic_graph'], 'api': ['sanitize_colored_vertices', 'sanitize_colors', 'sanitize_vertices', '_model_check_multiple_trees', 'model_check_multiple_trees', '_model_check_tree', 'model_check_tree',
                           '_model_check_multiple_formulae', 'model_check_multiple_formulae', '_model_check_formula', 'model_check_formula',
                           '_model_check_multiple_trees_dirty', '_model_check_multiple_formulae_dirty', 'parse_and_validate'],
                   'eval': ['eval_node'], 'ops': [], 'front': [], 'lex': [], 'tree': []},
@@ -241,9 +241,10 @@ PROPS['C15'] = {
                    'formula depends only on the auxiliary copies of its free variables, hence not at all for a closed one; the sanitising entry points are '
                    'proved to return exactly the raw result. All contracts are stated for an arbitrary number dim_k() of spare variable sets, so the result '
                    'is the same set of (state, colour) pairs for every k >= nesting depth. get_extended_symbolic_graph (unit tool, day 4) is proved to give EVERY network variable exactly k spare variables '
-                   'and the constant-true unit BDD (against assumed contracts of the library constructors).'),
+                   'and the constant-true unit BDD (against assumed contracts of the library constructors). The two other public sanitisers (sanitize_colors, sanitize_vertices) are proved '
+                   'to return the same colour / state set over the canonical context without a possible panic (the BDD of a projection is a cylinder over the auxiliary variables).'),
     'level_note': 'Assumed: the contract of SymbolicContext::transfer_from / as_canonical_context (succeeds iff the BDD does not depend on the auxiliary variables; a canonical BDD is modelled by its cylinder). R-mapcollect rewrites `results.iter().map(|x| sanitize(..)).collect()` into the explicit loop. Plain formulae only; known findings D5 / D8 apply (a wrongly shared result may depend on auxiliary variables).',
-    'explanation': 'spec/indep.rs; contracts/api.ctr (sanitize_colored_vertices and the non-dirty entry points).',
+    'explanation': 'spec/indep.rs; contracts/api.ctr (sanitize_colored_vertices, sanitize_colors, sanitize_vertices and the non-dirty entry points); contracts/tool.ctr (get_extended_symbolic_graph).',
     'trusted': _EVAL_TRUSTED, 'assumptions': _EVAL_ASSUME,
 }
 
